@@ -105,15 +105,22 @@ macro_rules! cover {
 /// *location* (this crate's `src/`), library panics by theirs (`/repo`, core).
 #[macro_export]
 macro_rules! vassert {
-    ($c:expr, $m:literal) => {
-        assert!($c, $m)
-    };
+    ($c:expr, $m:literal) => {{
+        let __ok: bool = $c;
+        // witness twin: Kani emits a concrete playback for a satisfied cover even where it
+        // emits none for the failed assertion; the runner pairs the two by source location
+        #[cfg(kani)]
+        kani::cover!(!__ok, $m);
+        assert!(__ok, $m);
+    }};
 }
 
 /// The call above was expected to end in a controlled panic.
 #[macro_export]
 macro_rules! noreturn {
-    ($m:literal) => {
+    ($m:literal) => {{
+        #[cfg(kani)]
+        kani::cover!(true, $m);
         panic!($m)
-    };
+    }};
 }
